@@ -187,6 +187,8 @@ NUMS = [
     {'t': 'dec', 'v': '3.0000000000000000000000000000071'},
     {'t': 'frac', 'v': '1/3'}, {'t': 'frac', 'v': '7/5'},
     {'t': 'frac', 'v': '1/8'}, {'t': 'frac', 'v': '22/7'},
+    # a Fraction that happens to be integral
+    {'t': 'frac', 'v': '3'}, {'t': 'frac', 'v': '7'},
     {'t': 'float', 'v': '0.5'}, {'t': 'float', 'v': '0.25'},
     {'t': 'float', 'v': '2.5'},
     # a float that is not what it looks like (0.1 is 3602879701896397 / 2**55)
@@ -966,9 +968,13 @@ def build_clsdef(env, items, style):
 
 
 class SymbolText(str):
-    """A symbol given as instance of a str sub-class (a StrEnum member, a
-    tagged string): still a str, taken as it is."""
+    """A symbol given as instance of a str sub-class (a member of a
+    `class Sym(str, Enum)`, a tagged string): still a str, taken as it is.
+    Like such an Enum member it does not print as its value."""
     __slots__ = ()
+
+    def __str__(self):
+        return 'Sym.' + str.__str__(self)
 
 
 def lib_sym(sym):
